@@ -570,6 +570,10 @@ func (rw *rlpxFrameRW) WriteMsg(msg Msg) error {
 	return err
 }
 
+// maxFrameSize is the largest frame accepted from the wire: the biggest message any protocol
+// accepts (10 MiB) plus the message code. Larger frames are refused before their buffer is allocated.
+const maxFrameSize = 10*1024*1024 + 16
+
 func (rw *rlpxFrameRW) ReadMsg() (msg Msg, err error) {
 	// read the header
 	headbuf := make([]byte, 32)
@@ -583,6 +587,9 @@ func (rw *rlpxFrameRW) ReadMsg() (msg Msg, err error) {
 	}
 	rw.dec.XORKeyStream(headbuf[:16], headbuf[:16]) // first half is now decrypted
 	fsize := readInt24(headbuf)
+	if fsize > maxFrameSize {
+		return msg, errors.New("frame too large")
+	}
 	// ignore protocol type for now
 
 	// read the frame content
